@@ -66,6 +66,13 @@ def _canon(v, depth=0):
         return f"<{type(v).__name__}>"
 
 
+def _noaddr(s):
+    """object addresses and generated function names are not behaviour"""
+    import re
+    s = re.sub(r" at 0x[0-9a-fA-F]+", " at 0x?", s)
+    return re.sub(r"<function [^>]*?( at 0x\?)?>", "<function>", s)
+
+
 HELPER_OK = ("__ol_", "itertools", "importlib", "__builtins__")
 
 
@@ -104,7 +111,8 @@ def run_pair(src, text, seconds=5, env_factory=None):
         finally:
             signal.setitimer(signal.ITIMER_REAL, 0)
         skip = tuple(env_factory().keys()) if env_factory is not None else ()
-        res.append({"stdout": buf.getvalue(), "globals": observe(g, skip), "exc": exc})
+        res.append({"stdout": _noaddr(buf.getvalue()), "globals": {k: _noaddr(v) for k, v in observe(g, skip).items()},
+                    "exc": exc})
     return res
 
 
